@@ -36,7 +36,7 @@
 EXTENDS WirePrims
 
 CONSTANTS PVs,            \* protocol versions enumerated (the composite layer only distinguishes < 3 and >= 3)
-          Families,       \* subset of {"scalar","list","set","map","tuple","udt","vector","nest2","nest3","range","tz","wide"}
+          Families,       \* subset of {"scalar","list","set","map","tuple","udt","vector","nest2","nest3","range","tz","wide","inettext"}
           TopScalars,     \* scalar types enumerated alone, with their full boundary alphabet
           ElemScalars,    \* element types of depth-1 lists / sets
           KeyScalars, ValScalars,   \* depth-1 maps
@@ -274,6 +274,15 @@ Uuid4  == <<18, 52, 86, 120, 154, 188, 78, 240, 129, 35, 69, 103, 137, 171, 205,
 Ip6(lasthi, last) == Tup([i \in 1..16 |-> IF i = 16 THEN last ELSE IF i = 15 THEN lasthi ELSE IF i = 1 THEN 32 ELSE IF i = 2 THEN 1
                                           ELSE IF i = 3 THEN 13 ELSE IF i = 4 THEN 184 ELSE 0])
 
+\* 16-byte addresses that carry an IPv4 address in their last 32 bits: IPv4-mapped ::ffff:a.b.c.d, IPv4-compatible
+\* ::a.b.c.d, the NAT64 well-known prefix 64:ff9b::a.b.c.d (RFC 6052), a documentation prefix
+Low32(pre, a, b, c, d) == Tup([i \in 1..16 |-> IF i <= 12 THEN pre[i] ELSE IF i = 13 THEN a ELSE IF i = 14 THEN b ELSE IF i = 15 THEN c ELSE d])
+Mapped(a, b, c, d) == Low32(<<0, 0, 0, 0, 0, 0, 0, 0, 0, 0, 255, 255>>, a, b, c, d)
+Compat(a, b, c, d) == Low32(<<0, 0, 0, 0, 0, 0, 0, 0, 0, 0, 0, 0>>, a, b, c, d)
+Nat64(a, b, c, d)  == Low32(<<0, 100, 255, 155, 0, 0, 0, 0, 0, 0, 0, 0>>, a, b, c, d)
+Doc6(a, b, c, d)   == Low32(<<32, 1, 13, 184, 0, 0, 0, 0, 0, 0, 0, 0>>, a, b, c, d)
+Full6(a, b, c, d)  == Low32(<<32, 1, 13, 184, 0, 1, 0, 2, 171, 205, 0, 4>>, a, b, c, d)
+
 Full(n) ==
     CASE n = "boolean"  -> {TRUE, FALSE}
       [] n = "tinyint"  -> {0, 1, -1, 127, -128, 126, -127, 64, -65}
@@ -294,6 +303,7 @@ Full(n) ==
       [] n = "uuid"     -> {Uuid0, UuidN, UuidF, Uuid1, Uuid4}
       [] n = "timeuuid" -> {Uuid1, <<0, 0, 0, 0, 0, 0, 16, 0, 128, 0, 0, 0, 0, 0, 0, 0>>}
       [] n = "inet"     -> {<<127, 0, 0, 1>>, <<0, 0, 0, 0>>, <<255, 255, 255, 255>>, <<10, 0, 0, 200>>, Ip6(0, 1), Ip6(255, 254),
+                            Mapped(10, 0, 0, 1), Mapped(255, 255, 255, 254), Compat(10, 0, 0, 1), Nat64(192, 0, 2, 33),
                             Uuid0, Tup([i \in 1..16 |-> IF i = 16 THEN 1 ELSE 0]), UuidF}
 Mid(n) ==
     CASE n = "boolean"  -> {TRUE, FALSE}
@@ -310,7 +320,7 @@ Mid(n) ==
       [] n = "blob"     -> {<<>>, <<0>>, <<255, 0>>}
       [] n = "uuid"     -> {Uuid0, Uuid4}
       [] n = "timeuuid" -> {Uuid1}
-      [] n = "inet"     -> {<<127, 0, 0, 1>>, Ip6(0, 1)}
+      [] n = "inet"     -> {<<127, 0, 0, 1>>, Ip6(0, 1), Mapped(10, 0, 0, 1)}
 Small(n) ==
     CASE n = "boolean"  -> {TRUE, FALSE}
       [] n = "tinyint"  -> {1, -1}
@@ -380,9 +390,10 @@ Pick(f, S) == IF f \in Families THEN S ELSE {}
 RangeSeed == <<"range">>
 TzSeed    == <<"tz">>
 WideSeed  == <<"wide">>
+InetSeed  == <<"inettext">>
 Types == Pick("scalar", {Sc(s) : s \in TopScalars}) \cup Pick("list", T_list) \cup Pick("set", T_set) \cup Pick("map", T_map)
          \cup Pick("tuple", T_tuple) \cup Pick("udt", T_udt) \cup Pick("vector", T_vector)
-         \cup Pick("nest2", T_nest2) \cup Pick("nest3", T_nest3) \cup Pick("range", {RangeSeed}) \cup Pick("tz", {TzSeed}) \cup Pick("wide", {WideSeed})
+         \cup Pick("nest2", T_nest2) \cup Pick("nest3", T_nest3) \cup Pick("range", {RangeSeed}) \cup Pick("tz", {TzSeed}) \cup Pick("wide", {WideSeed}) \cup Pick("inettext", {InetSeed})
 
 \* what a protocol version can carry at the top level: no null element in a v1/v2 collection ([short] lengths are
 \* unsigned); vectors exist only in Cassandra releases that speak v3+ (nested ones are always in the >= 3 format)
@@ -488,6 +499,68 @@ WideShapes == {<<TVarint, x>> : x \in WVals} \cup {<<Sc("bigint"), x>> : x \in W
               \cup {<<ListOf(TVarint), <<Some(x), Some(y)>>>> : x, y \in WFew}
 WideInRange(t, v) == t # Sc("bigint") \/ FitsLong(v)
 
+\* ------------------------------------------------------------------ inet addresses given as text
+\* The wire value of an inet is the 4 or 16 address bytes; a client names the address by text.  RFC 4291 section 2.2
+\* form 3 (and RFC 5952 section 5) writes an IPv6 address that embeds an IPv4 address as x:x:x:x:x:x:d.d.d.d - six
+\* hexadecimal 16-bit groups and the last 32 bits as a dotted quad - with "::" standing for one run of zero groups.
+\* Text is a sequence of ASCII codes.  Only this mixed notation is specified here; the canonical text of the other
+\* addresses (and the text expected back from a decode) is the platform's inet_ntop, taken by the harness.
+HexCh(d) == IF d < 10 THEN 48 + d ELSE 87 + d                  \* '0'..'9', 'a'..'f'
+RECURSIVE HexNum(_)
+HexNum(n) == IF n < 16 THEN <<HexCh(n)>> ELSE HexNum(n \div 16) \o <<HexCh(n % 16)>>
+RECURSIVE DecNum(_)
+DecNum(n) == IF n < 10 THEN <<48 + n>> ELSE DecNum(n \div 10) \o <<48 + (n % 10)>>
+ColonCh == 58
+DotCh   == 46
+Grp(b, i) == b[2 * i - 1] * 256 + b[2 * i]
+Quad(b) == DecNum(b[13]) \o <<DotCh>> \o DecNum(b[14]) \o <<DotCh>> \o DecNum(b[15]) \o <<DotCh>> \o DecNum(b[16])
+\* uncompressed: x:x:x:x:x:x:d.d.d.d
+MixedFull(b) == Cat([i \in 1..6 |-> HexNum(Grp(b, i)) \o <<ColonCh>>]) \o Quad(b)
+\* one run of zero groups written "::" (only the shapes below)
+ZeroGroups(b, S) == \A i \in S : Grp(b, i) = 0
+HasShort(b) == ZeroGroups(b, 1..5) \/ (ZeroGroups(b, 3..6) /\ Grp(b, 1) # 0 /\ Grp(b, 2) # 0)
+MixedShort(b) == IF ZeroGroups(b, 1..6) THEN <<ColonCh, ColonCh>> \o Quad(b)                                  \* ::a.b.c.d
+                 ELSE IF ZeroGroups(b, 1..5) THEN <<ColonCh, ColonCh>> \o HexNum(Grp(b, 6)) \o <<ColonCh>> \o Quad(b)   \* ::ffff:a.b.c.d
+                 ELSE HexNum(Grp(b, 1)) \o <<ColonCh>> \o HexNum(Grp(b, 2)) \o <<ColonCh, ColonCh>> \o Quad(b)    \* 64:ff9b::a.b.c.d
+\* specification-level reader of the notation (independent of the writers above)
+RECURSIVE SplitAt(_, _)
+SplitAt(s, c) == IF \A i \in 1..Len(s) : s[i] # c THEN <<s>>
+                 ELSE LET k == CHOOSE i \in 1..Len(s) : s[i] = c /\ \A j \in 1..(i - 1) : s[j] # c IN
+                      <<SubSeq(s, 1, k - 1)>> \o SplitAt(SubSeq(s, k + 1, Len(s)), c)
+HexDigitVal(ch) == IF ch <= 57 THEN ch - 48 ELSE ch - 87
+RECURSIVE HexVal(_)
+HexVal(s) == IF Len(s) = 0 THEN 0 ELSE HexVal(SubSeq(s, 1, Len(s) - 1)) * 16 + HexDigitVal(s[Len(s)])
+RECURSIVE DecVal(_)
+DecVal(s) == IF Len(s) = 0 THEN 0 ELSE DecVal(SubSeq(s, 1, Len(s) - 1)) * 10 + (s[Len(s)] - 48)
+ReadMixed(text) ==
+    LET f == SplitAt(text, ColonCh)
+        q == SplitAt(f[Len(f)], DotCh)
+        hexf == SubSeq(f, 1, Len(f) - 1)
+        gap == {i \in 1..Len(hexf) : Len(hexf[i]) = 0}
+        left == IF gap = {} THEN hexf ELSE SubSeq(hexf, 1, (CHOOSE i \in gap : \A j \in gap : i <= j) - 1)
+        right == IF gap = {} THEN <<>> ELSE SelectSeq(SubSeq(hexf, (CHOOSE i \in gap : \A j \in gap : i <= j), Len(hexf)), LAMBDA x : Len(x) > 0)
+        groups == [i \in 1..Len(left) |-> HexVal(left[i])] \o [i \in 1..(6 - Len(left) - Len(right)) |-> 0] \o [i \in 1..Len(right) |-> HexVal(right[i])]
+    IN Cat([i \in 1..6 |-> <<groups[i] \div 256, groups[i] % 256>>]) \o [i \in 1..4 |-> DecVal(q[i])]
+InetAddrs == {Mapped(10, 0, 0, 1), Mapped(255, 255, 255, 254), Compat(10, 0, 0, 1), Nat64(192, 0, 2, 33), Doc6(1, 2, 3, 4), Full6(5, 6, 7, 8)}
+InetReadings == {[addr |-> b, text |-> MixedFull(b)] : b \in InetAddrs}
+                \cup {[addr |-> b, text |-> MixedShort(b)] : b \in {x \in InetAddrs : HasShort(x)}}
+ASSUME Lemma_MixedTextReadsBack == \A x \in InetReadings : ReadMixed(x.text) = x.addr /\ Len(x.addr) = 16
+ASSUME Vector_MixedText ==          \* "::ffff:10.0.0.1", "64:ff9b::192.0.2.33", "2001:db8:0:0:0:0:1.2.3.4"
+    /\ MixedShort(Mapped(10, 0, 0, 1)) = <<58, 58, 102, 102, 102, 102, 58, 49, 48, 46, 48, 46, 48, 46, 49>>
+    /\ MixedShort(Nat64(192, 0, 2, 33)) = <<54, 52, 58, 102, 102, 57, 98, 58, 58, 49, 57, 50, 46, 48, 46, 50, 46, 51, 51>>
+    /\ MixedFull(Doc6(1, 2, 3, 4)) = <<50, 48, 48, 49, 58, 100, 98, 56, 58, 48, 58, 48, 58, 48, 58, 48, 58, 49, 46, 50, 46, 51, 46, 52>>
+TInet == Sc("inet")
+\* <<type, value as given (address + text), the same value with every reading replaced by its address bytes>>
+InetShapes ==
+    {<<TInet, x, x.addr>> : x \in InetReadings}
+    \cup {<<ListOf(TInet), <<Some(x)>>, <<Some(x.addr)>>>> : x \in InetReadings}
+    \cup {<<ListOf(TInet), <<Some(x), None, Some(x)>>, <<Some(x.addr), None, Some(x.addr)>>>> : x \in InetReadings}
+    \cup {<<SetOf(TInet), <<Some(x)>>, <<Some(x.addr)>>>> : x \in InetReadings}
+    \cup {<<MapOf(TInet, TInt), <<<<Some(x), Some(1)>>>>, <<<<Some(x.addr), Some(1)>>>>>> : x \in InetReadings}
+    \cup {<<MapOf(TInt, TInet), <<<<Some(-1), Some(x)>>>>, <<<<Some(-1), Some(x.addr)>>>>>> : x \in InetReadings}
+    \cup {<<TupleOf(<<TInt, TInet>>), <<None, Some(x)>>, <<None, Some(x.addr)>>>> : x \in InetReadings}
+    \cup {<<UdtOf(<<TInet, TText>>), <<Some(x), None>>, <<Some(x.addr), None>>>> : x \in InetReadings}
+
 -----------------------------------------------------------------------------
 VARIABLES ty, pv, val, enc, img, norm, expect
 vars == <<ty, pv, val, enc, img, norm, expect>>
@@ -495,7 +568,7 @@ vars == <<ty, pv, val, enc, img, norm, expect>>
 Init == /\ ty \in Types
         /\ pv = 0 /\ val = <<>> /\ enc = <<>> /\ img = {} /\ norm = <<>> /\ expect = "seed"
 
-Case == /\ expect = "seed" /\ ty \notin {RangeSeed, TzSeed, WideSeed}
+Case == /\ expect = "seed" /\ ty \notin {RangeSeed, TzSeed, WideSeed, InetSeed}
         /\ \E p \in PVs, v \in Vals(ty, 0, FALSE) :
               /\ Admissible(ty, v, p)
               /\ pv' = p /\ val' = v
@@ -517,7 +590,7 @@ RangeCase == /\ expect = "seed" /\ ty = RangeSeed
 \* A result cell that is null ([bytes] of length -1) or empty (length 0).  Null is null for every type.  An empty cell is
 \* the empty string for the string-like types; for every other type the driver documents that it "normally returns None"
 \* (cqltypes: support_empty_values) - the legacy Thrift "empty" value.
-CellCase == /\ expect = "seed" /\ ty \notin {RangeSeed, TzSeed, WideSeed}
+CellCase == /\ expect = "seed" /\ ty \notin {RangeSeed, TzSeed, WideSeed, InetSeed}
             /\ \E p \in PVs, k \in {"null", "empty"} :
                   /\ pv' = p /\ expect' = k
                   /\ norm' = IF k = "empty" /\ IsScalar(ty) /\ Kind(ty) \in {"text", "ascii", "blob"} THEN Some(<<>>) ELSE None
@@ -542,7 +615,17 @@ WideCase == /\ expect = "seed" /\ ty = WideSeed
                           /\ norm' = sh[2] /\ expect' = "wide"
                      ELSE /\ enc' = <<>> /\ img' = {} /\ norm' = <<>> /\ expect' = "wraise"
 
-Next == Case \/ RangeCase \/ CellCase \/ TzCase \/ WideCase
+\* val keeps the text as given; the bytes, and what comes back, are those of the address
+InetTextCase == /\ expect = "seed" /\ ty = InetSeed
+                /\ \E p \in PVs, sh \in InetShapes :
+                      /\ Admissible(sh[1], sh[3], p)
+                      /\ pv' = p /\ ty' = sh[1] /\ val' = sh[2]
+                      /\ enc' = Enc(sh[1], sh[3], p)
+                      /\ img' = Image(sh[1], sh[3], p)
+                      /\ norm' = Norm(sh[1], sh[3])
+                      /\ expect' = "ok"
+
+Next == Case \/ RangeCase \/ CellCase \/ TzCase \/ WideCase \/ InetTextCase
 Spec == Init /\ [][Next]_vars
 
 -----------------------------------------------------------------------------
